@@ -81,7 +81,12 @@ pub fn dispatch(args: &[String]) -> Option<i32> {
             }
             Some(0)
         }
-        "c06-risky" => Some(crate::props::c06::risky_child(&args[1])),
+        "c06-risky" => {
+            unsafe {
+                libc::prctl(libc::PR_SET_PDEATHSIG, libc::SIGKILL); // never outlive the check that started it
+            }
+            Some(crate::props::c06::risky_child(&args[1]))
+        }
         "fuzz-replay" => {
             // vcheck fuzz-replay <Cxx> <target> <artifact>: re-execute a libFuzzer artifact through the plain path
             let (id, target, path) = (args[1].as_str(), args[2].as_str(), args[3].as_str());
